@@ -178,7 +178,7 @@ func c06Real(o *common.Out, id string, sopt string) {
 		select {
 		case <-rig.h.entered:
 			return true
-		case <-time.After(3 * time.Second):
+		case <-time.After(12 * time.Second):
 			o.Fail(id, "rig", what+" never reached its handler", abstract)
 			return false
 		}
